@@ -528,7 +528,7 @@ def main(tier, seed, replay, jobs, scale):
         rp = json.load(open(replay))
         cases = [tuple(rp["replay"]["case"])]
     else:
-        n = int((600 if tier == "quick" else 6000) * scale)
+        n = int((600 if tier == "quick" else 15000) * scale)
         steps = 16 if tier == "quick" else 28
         cases = [(seed, i, steps, tier) for i in range(n)]
     par.absorb(run, par.run_cases(run_history, cases, jobs))
